@@ -26,9 +26,9 @@ RULE = (
     "gives distinct [A-Za-z0-9_]+ names, leaves its input unchanged and preserves every update function positionally; "
     "non-trivial = the transformation changes the variable order or negates a variable, on a diagram with >=3 nodes"
 )
-POOL = ["a", "B", "c1", "x_2", "Zed", "m", "k9", "q", "Ab", "aa", "y", "w0", "_u", "V_9"]
+POOL = ["a", "B", "c1", "x_2", "Zed", "m", "k9", "q", "Ab", "aa", "y", "w0", "_u", "V_9", "a_1", "B_x", "x"]
 # (AEON itself rejects names containing one of ! & | ^ = < > ( ) ? : when a network is validated)
-WEIRD = ["x{1}", "x[1]", "x_1_", "a b", "a.b", "a-b", "a/b", "a$b", "a'b", "TGFβ", "NFκB", "a_b", "x__1_", "κ", "9a", "a{", "_a_b", "a,b", "a#b", "a+b", "__a_b"]
+WEIRD = ["x{1}", "x[1]", "x_1_", "a b", "a.b", "a-b", "a/b", "a$b", "a'b", "TGFβ", "NFκB", "a_b", "x__1_", "κ", "9a", "a{", "_a_b", "a,b", "a#b", "a+b", "__a_b", "x}1{", "x.1.", "a b ", "a.b."]
 
 
 @st.composite
@@ -145,7 +145,11 @@ def run_case(case) -> Result:
             raw = to_bn_builder(tnet)
             raw_names = raw.variable_names()
             raw_aeon = raw.to_aeon()
-            bn2 = call(sanitize_network_names, raw)
+            try:
+                bn2 = call(sanitize_network_names, raw)
+            except Nonterminating as e:
+                res.violate("sanitize:does-not-terminate", names=raw_names, where=e.where)
+                return res
             if raw.variable_names() != raw_names or raw.to_aeon() != raw_aeon:
                 res.violate("sanitize:input-network-modified")
             names2 = bn2.variable_names()
